@@ -375,3 +375,29 @@ func reachesFromStore(s *ssa.Store, ld ssa.Instruction, stores []*ssa.Store) boo
 	}
 	return true
 }
+
+// unspill resolves a value loaded from a local Alloc to the value stored by the last store to that Alloc in the
+// same block before the load (go/ssa spills results to allocs in functions with defer: store; rundefers; load; return).
+func unspill(v ssa.Value) ssa.Value {
+	ld, ok := v.(*ssa.UnOp)
+	if !ok || ld.Op != token.MUL {
+		return v
+	}
+	al, ok := ld.X.(*ssa.Alloc)
+	if !ok {
+		return v
+	}
+	var last ssa.Value
+	for _, ins := range ld.Block().Instrs {
+		if ins == ssa.Instruction(ld) {
+			break
+		}
+		if st, ok := ins.(*ssa.Store); ok && st.Addr == ssa.Value(al) {
+			last = st.Val
+		}
+	}
+	if last != nil {
+		return last
+	}
+	return v
+}
